@@ -241,6 +241,27 @@ func viewsTest(t *testing.T, steps int) {
 			if err != nil {
 				t.Fatalf("readonly: %v", err)
 			}
+			// the view of the previous head that the node handed out before this block (and still caches) must keep
+			// showing the previous head: registry, ledger and the validator view derived from them
+			if prev, ok := committed[blk.Height()-1]; ok {
+				evid.Eval()
+				if pv, err := r.AppState.Readonly(blk.Height() - 1); err == nil {
+					now := h.W.DescribeVC(pv.ValidatorsCache)
+					if len(now) > len(prev.vc) {
+						now = now[:len(prev.vc)]
+					}
+					if d := sim.DiffLines(now, prev.vc); len(d) > 0 {
+						t.Fatalf("after %s the read-only view of the previous head %d shows another validator view than was committed there: %v", sim.BlockDesc(blk), blk.Height()-1, d)
+					}
+					got := record(h.W, pv)
+					for a, s := range prev.values {
+						if got[a] != s {
+							t.Fatalf("after %s the read-only view of the previous head %d returns for %s: %s; committed: %s", sim.BlockDesc(blk), blk.Height()-1, h.W.Name(a), got[a], s)
+						}
+					}
+					evid.Count("c.previous_head_view_after_commit")
+				}
+			}
 			vc := validators.NewValidatorsCache(ids, ro.GodAddress())
 			vc.Load()
 			committed[blk.Height()] = snapshot{blk.Hash(), record(h.W, &appstate.AppState{State: ro, IdentityState: ids}), h.W.DescribeVC(vc)}
